@@ -18,7 +18,7 @@ func sameViolation(res *RunResult, want *Violation) *Violation {
 	}
 	for i := range res.Violations {
 		v := &res.Violations[i]
-		if v.Prop == want.Prop && v.Monitor == want.Monitor {
+		if v.Prop == want.Prop && v.Monitor == want.Monitor && (want.Monitor != "safety" || v.Sig == want.Sig) {
 			return v
 		}
 	}
@@ -33,6 +33,9 @@ func Minimize(t *testing.T, rf *ReplayFile, budget int) *ReplayFile {
 	try := func(w *World, tr []Decision) *Violation {
 		runs++
 		res := RunOne(t, p, rf.RunSeed, cloneWorld(w), tr, rf.UseTrace, false)
+		if p.Name == "C11" {
+			c11Translate(res)
+		}
 		return sameViolation(res, rf.Violation)
 	}
 	cur := rf.Trace
